@@ -342,6 +342,9 @@ def lower5(ctx) -> List[Ob]:
         for s in lp.body:
             if isinstance(s, ast.If) and s.body and isinstance(s.body[0], ast.Continue):
                 preds.append(("transform", _norm_pred(s.test, names[-1]), ctx.where(tr, s)))
+            elif isinstance(s, ast.If) and not s.orelse and s is lp.body[-1] and isinstance(s.test, ast.UnaryOp) and isinstance(s.test.op, ast.Not) and method_calls(ast.Module(s.body, []), "codegen"):
+                # canonical form of the guard clause: `if not <pred>: <emit>`
+                preds.append(("transform", _norm_pred(s.test.operand, names[-1]), ctx.where(tr, s)))
     # (2) per-region view: comprehension with `if not (<pred>)`
     for f in ctx.prog.functions:
         if f.parent_fn is cg or f is cg:
